@@ -745,7 +745,7 @@ func (ex *Exec) runPath(h *HarnessRun, item WorkItem) (res PathResult) {
 			panic(r) // engine bug
 		}
 		res.Violations = ex.violations
-		if h.sampleThis() && (res.Outcome == "ok" || res.Outcome == "panic") {
+		if len(ex.violations) == 0 && h.sampleThis() && (res.Outcome == "ok" || res.Outcome == "panic") {
 			ins, m, v := ex.witness()
 			if v == Sat {
 				res.Inputs = ins
